@@ -86,6 +86,7 @@ fn one_fault<S: StorageData>(
     k: i64,
     seed: u64,
     rep: &mut Report,
+    maint: Option<u8>,
 ) -> Result<(), Outcome> {
     crate::hist_eng::cleanup(path);
     let out = |class: &str, detail: String| Outcome {
@@ -110,7 +111,17 @@ fn one_fault<S: StorageData>(
     } else {
         ctl.arm_fault(k);
     }
-    let r = qs[i].to_agdb().exec(&mut db);
+    // `maint`: the faulted operation is a maintenance call after qs[..i] instead of the query qs[i]
+    let name: String = match maint {
+        Some(0) => "optimize_storage".into(),
+        Some(_) => "shrink_to_fit".into(),
+        None => qs[i].kind().to_string(),
+    };
+    let r: Result<(), String> = match maint {
+        Some(0) => db.optimize_storage().map_err(|e| e.description),
+        Some(_) => db.shrink_to_fit().map_err(|e| e.description),
+        None => qs[i].to_agdb().exec(&mut db).map(|_| ()).map_err(|e| e.description),
+    };
     ctl.disarm();
     ctl.fail_flush_in.store(-1, std::sync::atomic::Ordering::SeqCst);
     if ctl.faults_fired.load(std::sync::atomic::Ordering::SeqCst) == fired_before {
@@ -118,8 +129,11 @@ fn one_fault<S: StorageData>(
         return Ok(()); // the query needed fewer calls this time: nothing was injected
     }
     rep.count("faults_injected");
+    if maint.is_some() {
+        rep.count("maintenance_flush_faults_injected");
+    }
     if r.is_ok() {
-        return Err(out("faulted_query_reported_success", format!("{:?} returned Ok although storage call {k} failed", qs[i].kind())));
+        return Err(out("faulted_query_reported_success", format!("{name:?} returned Ok although storage call {k} failed")));
     }
     // (b) and it has no effect
     match dump::dump(&db, &pr) {
@@ -134,7 +148,7 @@ fn one_fault<S: StorageData>(
     rep.count("failed_query_left_no_effect");
     // (c) the database stays usable: further valid queries succeed and the model monitors keep holding
     let mut g = Gen::new(seed ^ 0x1234, cfg());
-    let later = 5 + (seed % 11) as usize;
+    let later = if maint.is_some() { 14 } else { 5 } + (seed % 11) as usize;
     let mut done = 0;
     let mut guard = 0;
     while done < later && guard < later * 8 {
@@ -288,9 +302,9 @@ impl CaseEngine for C32 {
                 rep.count(&format!("faulted_{}", qs[i].kind()));
                 let r = panicmon::catch(|| {
                     if mapped {
-                        one_fault::<FileStorageMemoryMapped>(&path, &qs, i, k, seed ^ (i as u64 * 131 + k as u64), rep)
+                        one_fault::<FileStorageMemoryMapped>(&path, &qs, i, k, seed ^ (i as u64 * 131 + k as u64), rep, None)
                     } else {
-                        one_fault::<FileStorage>(&path, &qs, i, k, seed ^ (i as u64 * 131 + k as u64), rep)
+                        one_fault::<FileStorage>(&path, &qs, i, k, seed ^ (i as u64 * 131 + k as u64), rep, None)
                     }
                 });
                 let v = match r {
@@ -320,6 +334,44 @@ impl CaseEngine for C32 {
                 }
             }
         }
+        // maintenance calls (optimize_storage, shrink_to_fit) after the whole history and after half of it,
+        // with each of their first flushes failing; same consequences required as for a query
+        for (i, m, f) in [qs.len(), qs.len() / 2].into_iter().flat_map(|i| (0..2u8).flat_map(move |m| (0..3i64).map(move |f| (i, m, f)))) {
+            let name = if m == 0 { "optimize_storage" } else { "shrink_to_fit" };
+            progress(&format!("{name} after query {i} flush_fault={f}"));
+            rep.eval();
+            rep.distinct_hash(tag(&format!("{name}|flush|{mapped}")));
+            let r = panicmon::catch(|| {
+                if mapped {
+                    one_fault::<FileStorageMemoryMapped>(&path, &qs, i, FLUSH + f, seed ^ (i as u64 * 977 + f as u64 + m as u64 * 31), rep, Some(m))
+                } else {
+                    one_fault::<FileStorage>(&path, &qs, i, FLUSH + f, seed ^ (i as u64 * 977 + f as u64 + m as u64 * 31), rep, Some(m))
+                }
+            });
+            let v = match r {
+                Ok(Ok(())) => {
+                    None
+                }
+                Ok(Err(o)) => Some((o.class, o.detail)),
+                Err(p) => Some((p.signature(), format!("panic {} at {}:{}", p.message, p.file, p.line))),
+            };
+            if let Some((class, detail)) = v {
+                if class.starts_with("harness_") {
+                    rep.inconclusive(&format!("{class}: {detail}"));
+                    continue;
+                }
+                rep.count("fault_points_violating");
+                let sig = format!("C32:flush_fault:{class}:{name}");
+                if fired.insert(sig.clone()) {
+                    rep.violation(
+                        &sig,
+                        &format!("[{}] {name} after query {i} with its flush {f} failing: {detail}", if mapped { "mapped" } else { "file" }),
+                        json!({"engine":"c32","case":case,"seed":args.u64("seed",1),"tier":args.str("tier","quick"),"query_index":i,"maintenance":name,"flush":f,
+                               "queries": qs.iter().take(i).map(|q| format!("{q:?}")).collect::<Vec<_>>()}),
+                    );
+                }
+            }
+        }
         if case == 0 {
             rep.sample(|| json!({"history": qs.iter().map(|q| format!("{q:?}")).collect::<Vec<_>>(), "mutating_calls_per_query": counts}));
         }
@@ -327,6 +379,7 @@ impl CaseEngine for C32 {
     }
     fn finish(&self, args: &Args, rep: &mut Report) {
         rep.require("faults_injected", 200);
+        rep.require("maintenance_flush_faults_injected", 10);
         let _ = std::fs::remove_dir_all(args.str("scratch", "/verif/scratch/c32"));
     }
 }
